@@ -40,7 +40,7 @@ using Agent = frg::qs_agent<Mutex>;
 struct Obj { long a, b; int version; bool retired; vclock::Stamp last_read[4]; };      // last_read[k]: agent k's latest read-side access (vclock.hpp)
 constexpr long DEAD = 0x0DEAD0DEADl;
 
-struct BarrierInfo { int id; int owner; std::set<int> waiting; bool fired = false; Obj *victim = nullptr; };
+struct BarrierInfo { int id; int owner; std::set<int> waiting; bool fired = false; Obj *victim = nullptr; vclock::Stamp qstamp[4]; bool has_qstamp[4] = {false, false, false, false}; };     // qstamp[k]: agent k's position when it entered its first quiescent state (or offline()) after the registration
 struct Barrier { frg::qs_node node; int id; };
 
 struct World {
@@ -68,8 +68,12 @@ void on_grace(frg::qs_node *n) {
 		bi.fired = true;
 		if((my_agent != bi.owner || !W->in_run[my_agent]) && W->error.empty()) { snprintf(buf, sizeof buf, "the callback of barrier %d (agent %d) was invoked by agent %d outside that agent's run()", bi.id, bi.owner, my_agent); W->error = buf; }
 		if(!bi.waiting.empty() && W->error.empty()) { snprintf(buf, sizeof buf, "the callback of barrier %d ran although agent %d, online at registration, has not been quiescent or offline since", bi.id, *bi.waiting.begin()); W->error = buf; }
+		// "everything that agent did before entering quiescent_state() happens-before the callback": asked of the vector clocks directly
+		for(int k = 0; k < 4; k++) if(bi.has_qstamp[k] && !vclock::hb(bi.qstamp[k]) && W->error.empty()) { snprintf(buf, sizeof buf, "the callback of barrier %d runs although what agent %d did before it entered its quiescent state does not happen before the callback: the thread in run() has not acquired (C++20 [intro.races]) anything that agent released since", bi.id, k); W->error = buf; }
 		victim = bi.victim;
 	}
+	// a callback takes time: other agents may run (and close further grace periods) while it executes
+	dsched::point();
 	if(victim) {
 		for(int k = 0; k < 4; k++) if(!vclock::hb(victim->last_read[k])) {
 			dsched::Ignore ig;
@@ -78,6 +82,7 @@ void on_grace(frg::qs_node *n) {
 		// plain writes: everything a reader did with the object before its quiescent state must happen-before this
 		victim->a = DEAD; victim->b = DEAD; victim->retired = true;
 	}
+	dsched::point();
 	memset((void *)b, 0xDD, sizeof *b);
 	free(b);
 }
@@ -106,7 +111,7 @@ void verif_case(Ctx &c) {
 	bool saw_deferred_discard = false;
 	int version = 2;
 
-	auto mark_quiescent = [&](int a) { dsched::Ignore ig; for(auto &b : w.barriers) if(!b.fired) b.waiting.erase(a); };
+	auto mark_quiescent = [&](int a) { dsched::Ignore ig; vclock::Stamp now = vclock::now(); for(auto &b : w.barriers) if(!b.fired && b.waiting.erase(a) && a < 4) { b.qstamp[a] = now; b.has_qstamp[a] = true; } };
 	auto register_barrier = [&](int a, Obj *victim) {
 		Barrier *b = (Barrier *)malloc(sizeof(Barrier)); new (b) Barrier();
 		{ dsched::Ignore ig; BarrierInfo bi; bi.id = (int)w.barriers.size(); bi.owner = a; bi.victim = victim; for(unsigned k = 0; k < nagents; k++) if(w.online[k] && !w.in_qs[k]) bi.waiting.insert(k);     /* an agent that is inside quiescent_state() right now has "since been inside" it */
@@ -182,7 +187,8 @@ void verif_case(Ctx &c) {
 			}
 		} catch(Panic &p) { dsched::Ignore ig; if(w.error.empty()) w.error = "frg_panic on a valid history: " + p.msg; }
 	});
-	auto choose = [&](size_t n) -> uint32_t { return t.done() ? 0 : t.next() % n; };
+	unsigned smode = t.pick(5); c.tagf("sched-mode-%u", smode);
+	auto choose = dsched::make_chooser(t, smode);
 	auto r = dsched::run(bodies, choose, 60000);
 	if(saw_deferred_discard) c.discard("offline() of an agent with a deferred grace period (documented TODO)");
 	VCHECK(c, "C11", r.verdict != "deadlock", "deadlock: every agent is blocked (domain mutex never released?) after %llu steps", (unsigned long long)r.steps);
@@ -214,7 +220,7 @@ void verif_enum(Enum &e) {
 	for(auto &sh : shapes) {
 		std::vector<uint32_t> choices; bool more = true; uint64_t n = 0;
 		while(more && n < cap) {
-			std::vector<uint32_t> tape = sh.prefix; tape.insert(tape.end(), choices.begin(), choices.end());
+			std::vector<uint32_t> tape = sh.prefix; tape.push_back(0 /* schedule mode: uniform */); tape.insert(tape.end(), choices.begin(), choices.end());
 			if(!e.run(tape)) return;
 			n++;
 			auto sizes = dsched::S().trace_sizes;
